@@ -48,7 +48,7 @@ Node(q, n) == Progs[q].nodes[n]
 Kind(q, n) == Progs[q].nodes[n].k
 Args(q, n) == Progs[q].nodes[n].a
 IsConst(q, n) == Kind(q, n) = "const"
-Primitive(q, n) == Kind(q, n) \in {"drange", "wsel"}
+Primitive(q, n) == Kind(q, n) \in {"drange", "drange2", "wsel"}
 
 \* dependencies that are themselves samplable, in the order the code visits them
 Deps(q, n) == SelectSeq(Args(q, n), LAMBDA m : ~IsConst(q, m))
@@ -96,17 +96,21 @@ Holds(t, v) ==
 \* ---- distribution of a primitive node given the values of its parameters
 RECURSIVE SumInts(_)
 SumInts(s) == IF s = <<>> THEN 0 ELSE Head(s) + SumInts(Tail(s))
-Support(q, n, v) == IF Kind(q, n) = "drange" THEN v[Args(q, n)[1]]..v[Args(q, n)[2]]
+\* bounds of a DiscreteRange: the integers between the (possibly fractional) end points.
+\* "drange2" has constant bounds given in half units: ceil(lo2/2) .. floor(hi2/2)
+Lo(q, n, v) == IF Kind(q, n) = "drange2" THEN -((-Node(q, n).c[1]) \div 2) ELSE v[Args(q, n)[1]]
+Hi(q, n, v) == IF Kind(q, n) = "drange2" THEN Node(q, n).c[2] \div 2 ELSE v[Args(q, n)[2]]
+Support(q, n, v) == IF Kind(q, n) \in {"drange", "drange2"} THEN Lo(q, n, v)..Hi(q, n, v)
                     ELSE 0..(Len(Node(q, n).c) - 1)
-Prob(q, n, x, v) == IF Kind(q, n) = "drange"
-                    THEN Rat!Of(1, v[Args(q, n)[2]] - v[Args(q, n)[1]] + 1)
+Prob(q, n, x, v) == IF Kind(q, n) \in {"drange", "drange2"}
+                    THEN Rat!Of(1, Hi(q, n, v) - Lo(q, n, v) + 1)
                     ELSE Rat!Of(Node(q, n).c[x + 1], SumInts(Node(q, n).c))
 RECURSIVE Cum(_, _)
 Cum(c, i) == IF i = 0 THEN <<>>
              ELSE LET r == Cum(c, i - 1) IN Append(r, (IF i = 1 THEN 0 ELSE r[i - 1]) + c[i])
 \* what the code must ask the random module for
-RngCall(q, n, v) == IF Kind(q, n) = "drange"
-                    THEN [fn |-> "randint", args |-> <<v[Args(q, n)[1]], v[Args(q, n)[2]]>>]
+RngCall(q, n, v) == IF Kind(q, n) \in {"drange", "drange2"}
+                    THEN [fn |-> "randint", args |-> <<Lo(q, n, v), Hi(q, n, v)>>]
                     ELSE [fn |-> "choices", args |-> Cum(Node(q, n).c, Len(Node(q, n).c))]
 
 Outcome(q, v) == [i \in 1..Len(Progs[q].outs) |-> v[Progs[q].outs[i]]]
@@ -164,7 +168,7 @@ EmptyRange ==
   /\ pc = "sampling" /\ j <= Len(Order) /\ Primitive(pid, Cur) /\ Ready(Cur)
   /\ Support(pid, Cur, val) = {}
   /\ pc' = "loop"
-  /\ hist' = Append(hist, [fn |-> "empty", args |-> <<val[Args(pid, Cur)[1]], val[Args(pid, Cur)[2]]>>, res |-> 0])
+  /\ hist' = Append(hist, [fn |-> "empty", args |-> <<Lo(pid, Cur, val), Hi(pid, Cur, val)>>, res |-> 0])
   /\ UNCHANGED <<pid, k, active, iter, j, val, done, ws>>
 
 Compute ==
